@@ -60,12 +60,12 @@ func init() {
 		Doc:      "rollback on every exit: in the closure returned by cli.commandAction, deferred calls that on each of their paths reach (*Transaction).Rollback and (*Transaction).ReleaseResourcesWithErrors dominate every call that receives the *Processor or can reach (*Processor).Execute; calls made before that defer open files only through a container of their own that a dominating defer closes; signal.Notify is given action.Signals and, like the `go` statement whose function receives from that channel and calls the cancel function of the context handed to the action, dominates those calls; action.Signals (loaded GOOS; darwin and windows too in the thorough tier) contains SIGINT, SIGTERM and SIGQUIT",
 		Controls: []string{"CtlTxn2LateRollbackDefer"},
 		Run:      ruleTxn2})
-	Register(&Rule{ID: "R-TXN-3", Props: []string{"C01", "C10"}, Floor: 10,
-		Doc:      "two-phase commit order: in (*Transaction).Commit (and every lib/query function reachable from it that swaps files) no path leads from a call that reaches (*file.Container).Commit to a call that reaches EncodeView or to (*os.File).Write/WriteString/WriteAt/Truncate/Seek/ReadFrom: every new content is completely written before the first file is swapped; and on the path where such a write returns a non-nil error (a discarded error counts as failing) neither a swap nor a return that can report success is reachable",
+	Register(&Rule{ID: "R-TXN-3", Props: []string{"C01", "C10"}, Floor: 6,
+		Doc:      "two-phase commit order: in (*Transaction).Commit, in every lib/query function reachable from it that swaps files, and in every lib/query function Commit statically calls (transitively) that writes a table file itself (truncate/seek/EncodeView/write helper), no path leads from a call that reaches (*file.Container).Commit to a call that reaches EncodeView or to (*os.File).Write/WriteString/WriteAt/Truncate/Seek/ReadFrom: every new content is completely written before the first file is swapped; and on the path where such a write returns a non-nil error (a discarded error counts as failing) neither a swap nor a return that can report success is reachable",
 		Controls: []string{"CtlTxn3SwapInsideEncodeLoop", "CtlTxn3WriteErrorOnlyLogged"},
 		Run:      ruleTxn3})
-	Register(&Rule{ID: "R-TXN-4", Props: []string{"C01"}, Floor: 30,
-		Doc:      "every publisher is marked: (i) the callers of (ViewMap).Set/Store, SetTemporaryTable and ReplaceTemporaryTable are exactly a frozen table (9 statement functions, 2 loaders, DeclareView, plumbing); (ii) for every call of a statement function F (a publisher returning *FileInfo or []*FileInfo), on every path after the call on which F's error is nil and F's own count is positive, UncommittedViews.SetForUpdatedView/SetForCreatedView is called with F's FileInfo — directly or by a csvq helper that marks its parameter on all of its paths — before the function returns (for slice results: the loop over the FileInfos is reached, and in each iteration the element whose count is positive is marked)",
+	Register(&Rule{ID: "R-TXN-4", Props: []string{"C01"}, Floor: 24,
+		Doc:      "every publisher is marked: (i) the callers of (ViewMap).Set/Store, SetTemporaryTable and ReplaceTemporaryTable are exactly a frozen table (9 statement functions, 2 loaders, DeclareView, plumbing); an unexported function that hands only its own *View parameter to these primitives and has callers counts as a publishing helper and the question is decided on its callers instead (two levels); (ii) for every call of a statement function F (a publisher returning *FileInfo or []*FileInfo), on every path after the call on which F's error is nil and F's own count is positive, UncommittedViews.SetForUpdatedView/SetForCreatedView is called with F's FileInfo before the function returns — directly, or by a csvq helper (followed for two levels) that receives the FileInfo and the count, or the two slices, and is itself shown to mark what it receives (for slice results: the loop over the FileInfos is reached, runs 0..len, and in each iteration the element whose count of the same index is positive is marked)",
 		Controls: []string{"CtlTxn4MarkNeedsTwoRows", "CtlTxn4MarkOnlyFirst", "CtlTxn4UnlistedPublisher"},
 		Run:      ruleTxn4})
 	Register(&Rule{ID: "R-TXN-5", Props: []string{"C01", "C20"}, Floor: 16,
@@ -77,7 +77,7 @@ func init() {
 		Controls: []string{"CtlTxn7ExitInStatement"},
 		Run:      ruleTxn7})
 	Register(&Rule{ID: "R-TXN-8", Props: []string{"C01"}, Floor: 7,
-		Doc:      "what is encoded is what is swapped: in (*Transaction).Commit every EncodeView call writes to the FileForUpdate descriptor of the handler of the view it encodes; after a successful encode every path appends that view's FileInfo to a slice before the next encode, a swap or a return that can report success; the slices whose elements' handlers are swapped (Container.Commit in a loop over the whole slice) are exactly those slices, each built only by one make and those appends; EncodeView views derive from both maps returned by UncommittedFiles; after a successful swap the same FileInfo is Unset before the next swap or success return. One level of helper extraction is followed on both sides (a csvq function that encodes the views of its map parameter and returns the list; one that swaps and Unsets every element of its slice parameter); anything else is reported as undecided",
+		Doc:      "what is encoded is what is swapped: in (*Transaction).Commit every encode — a direct EncodeView call, or a call of a per-view helper shown to encode one view and to return that view's FileInfo on every success return — writes through the FileForUpdate descriptor of the handler of the view it encodes; after a successful encode every path appends that view's FileInfo to a slice before the next encode, a swap or a return that can report success; the slices whose elements' handlers are swapped (Container.Commit in a loop over the whole slice) are exactly those slices, each built only by one make and those appends; the encoded views derive from both maps returned by UncommittedFiles; after a successful swap the same FileInfo is Unset before the next swap or success return. Helper extraction is followed for two levels on the encode side (per-view helper; helper that encodes the views of its map parameter and returns the list) and one level on the swap side (helper that swaps and Unsets every element of its slice parameter); anything else is reported as undecided",
 		Controls: []string{"CtlTxn8SwapsOtherList"},
 		Run:      ruleTxn8})
 }
@@ -985,10 +985,43 @@ func ruleTxn3(c *Ctx) {
 	}
 	fns := []*ssa.Function{commit}
 	swapSet := txnSet(p, txnContCommit)
+	inFns := map[*ssa.Function]bool{commit: true}
 	for _, f := range p.FuncsIn(false, "lib/query") {
 		// lib/query functions that take part in a commit: reachable from Commit and able to swap
 		if f != commit && swapSet[f] && p.ReachSet(commit)[f] {
 			fns = append(fns, f)
+			inFns[f] = true
+		}
+	}
+	// … and the lib/query functions Commit statically calls (transitively) that
+	// write a table file themselves: a helper holding the truncate / seek /
+	// EncodeView / trailing-write sequence belongs to the encode phase
+	encodeView := p.Func(txnEncodeView)
+	{
+		seenF := map[*ssa.Function]bool{commit: true}
+		queue := []*ssa.Function{commit}
+		for len(queue) > 0 {
+			g := queue[0]
+			queue = queue[1:]
+			for _, call := range core.Calls(g) {
+				k := core.StaticCallee(call)
+				if k == nil || seenF[k] || k == encodeView || k.Blocks == nil || !p.InPkg(k, "lib/query") {
+					continue
+				}
+				seenF[k] = true
+				queue = append(queue, k)
+				writes := false
+				for _, kc := range core.Calls(k) {
+					switch p.CalleeName(kc) {
+					case "(*os.File).Write", "(*os.File).WriteString", "(*os.File).WriteAt", "(*os.File).Truncate", "(*os.File).Seek", "(*os.File).ReadFrom", txnEncodeView:
+						writes = true
+					}
+				}
+				if writes && !inFns[k] {
+					fns = append(fns, k)
+					inFns[k] = true
+				}
+			}
 		}
 	}
 	sortFuncs(p, fns)
@@ -1040,7 +1073,7 @@ func ruleTxn3(c *Ctx) {
 		for _, b := range fn.Blocks {
 			for _, in := range b.Instrs {
 				wc, isCall := in.(*ssa.Call)
-				if !isCall || !isWrite(in) || len(swaps) == 0 {
+				if !isCall || !isWrite(in) || (len(swaps) == 0 && p.IsControl(fn)) {
 					continue
 				}
 				errV, hasErr := txnErrOf(wc)
@@ -1131,60 +1164,129 @@ func ruleTxn4(c *Ctx) {
 	// (i) who may publish
 	publishers := map[*ssa.Function]bool{}
 	seen := map[string]bool{}
+	primSet := map[*ssa.Function]bool{} // primitives and accepted publishing helpers
+	for _, pn := range prims {
+		if f := p.Func(pn); f != nil {
+			primSet[f] = true
+		}
+	}
+	// pureHelper: g is an unexported top-level csvq function outside the table
+	// that has callers and hands only its own *View parameter(s) to the
+	// publishing primitives: it is part of whoever calls it, so "who may
+	// publish" is decided on its callers.
+	pureHelper := func(g *ssa.Function) (bool, string) {
+		if p.IsControl(g) || g.Parent() != nil || g.Object() == nil || g.Object().Exported() {
+			return false, ""
+		}
+		n := 0
+		for _, call := range core.Calls(g) {
+			k := core.StaticCallee(call)
+			if k == nil || !primSet[k] {
+				if k == nil && p.CallIn(call, primSet) {
+					return false, ""
+				}
+				continue
+			}
+			n++
+			for _, a := range call.Common().Args {
+				if core.NamedOf(a.Type()) != "lib/query.View" {
+					continue
+				}
+				isParam := false
+				for _, pa := range g.Params {
+					if txnValueIs(a, pa) {
+						isParam = true
+					}
+				}
+				if !isParam {
+					return false, ""
+				}
+			}
+		}
+		if n == 0 {
+			return false, ""
+		}
+		real := 0
+		for _, e := range p.Callers(g) {
+			if txnIsSrc(p, e.Caller.Func) {
+				real++
+			}
+		}
+		if real == 0 {
+			return false, "it looks like a publishing helper but nothing calls it"
+		}
+		return true, ""
+	}
+	var visit func(target *ssa.Function, via string, depth, hdepth int)
+	visit = func(target *ssa.Function, via string, depth, hdepth int) {
+		edges := p.Callers(target)
+		sort.SliceStable(edges, func(i, j int) bool { return p.FnRef(edges[i].Caller.Func) < p.FnRef(edges[j].Caller.Func) })
+		for _, e := range edges {
+			g := e.Caller.Func
+			if g.Synthetic != "" && g.Parent() == nil {
+				if depth < 3 {
+					visit(g, via, depth+1, hdepth)
+				}
+				continue
+			}
+			name := p.Name(g)
+			if !txnIsSrc(p, g) {
+				continue
+			}
+			key := name + ": publishes via " + via
+			if seen[key] {
+				continue
+			}
+			seen[key] = true
+			c.Touch(g)
+			pos := c.FnPos(g)
+			if e.Site != nil {
+				pos = c.Pos(e.Site.(ssa.Instruction))
+			}
+			reason, listed := txn4Publishers[name]
+			if !listed && hdepth < 2 {
+				if ok, _ := pureHelper(g); ok {
+					c.Ok(key, pos, "publishing helper: unexported, publishes only its own *View parameter; who may publish is decided on its callers")
+					if !primSet[g] {
+						primSet[g] = true
+						visit(g, strings.TrimPrefix(name, "lib/query."), 0, hdepth+1)
+					}
+					continue
+				}
+			}
+			publishers[g] = true
+			if !listed || p.IsControl(g) {
+				why := "this function publishes a view into a view map but is not in the who-may-publish table: nothing guarantees that ExecuteStatement marks the change as uncommitted, so COMMIT would not write it and ROLLBACK would not undo it"
+				if _, w := pureHelper(g); w != "" {
+					why += " (" + w + ")"
+				}
+				c.Bad(key, pos, why)
+				continue
+			}
+			if strings.HasSuffix(name, "AllTemporaryTables$1") && e.Site != nil {
+				fresh := false
+				for _, o := range core.Origins(e.Site.Common().Args[0], false) {
+					if oc, ok := o.(*ssa.Call); ok && p.CalleeName(oc) == "lib/query.NewViewMap" {
+						fresh = true
+					} else {
+						fresh = false
+						break
+					}
+				}
+				if !fresh {
+					c.Bad(key, pos, "exception `fresh map` no longer holds: the receiver is not a NewViewMap() result of the enclosing function")
+					continue
+				}
+			}
+			c.Ok(key, pos, "listed: "+reason)
+		}
+	}
 	for _, pn := range prims {
 		prim := c.Fn(pn)
 		if prim == nil {
 			continue
 		}
-		var visit func(target *ssa.Function, depth int)
-		visit = func(target *ssa.Function, depth int) {
-			for _, e := range p.Callers(target) {
-				g := e.Caller.Func
-				if g.Synthetic != "" && g.Parent() == nil {
-					if depth < 3 {
-						visit(g, depth+1)
-					}
-					continue
-				}
-				name := p.Name(g)
-				if !txnIsSrc(p, g) {
-					continue
-				}
-				publishers[g] = true
-				key := name + ": publishes via " + strings.TrimPrefix(pn, "lib/query.")
-				if seen[key] {
-					continue
-				}
-				seen[key] = true
-				c.Touch(g)
-				pos := c.FnPos(g)
-				if e.Site != nil {
-					pos = c.Pos(e.Site.(ssa.Instruction))
-				}
-				reason, listed := txn4Publishers[name]
-				if !listed || p.IsControl(g) {
-					c.Bad(key, pos, "this function publishes a view into a view map but is not in the who-may-publish table: nothing guarantees that ExecuteStatement marks the change as uncommitted, so COMMIT would not write it and ROLLBACK would not undo it")
-					continue
-				}
-				if strings.HasSuffix(name, "AllTemporaryTables$1") && e.Site != nil {
-					fresh := false
-					for _, o := range core.Origins(e.Site.Common().Args[0], false) {
-						if oc, ok := o.(*ssa.Call); ok && p.CalleeName(oc) == "lib/query.NewViewMap" {
-							fresh = true
-						} else {
-							fresh = false
-							break
-						}
-					}
-					if !fresh {
-						c.Bad(key, pos, "exception `fresh map` no longer holds: the receiver is not a NewViewMap() result of the enclosing function")
-						continue
-					}
-				}
-				c.Ok(key, pos, "listed: "+reason)
-			}
-		}
-		visit(prim, 0)
+		visit(prim, strings.TrimPrefix(pn, "lib/query."), 0, 0)
 	}
 	// every listed publisher still exists (a vanished one is reported once)
 	for name := range txn4Publishers {
@@ -1242,139 +1344,128 @@ func txn4IsFileInfo(t types.Type) int {
 }
 
 // txn4Mark is one place where a FileInfo of the statement gets marked: a direct
-// SetForUpdatedView/SetForCreatedView call, or a call of a csvq helper that
-// marks its parameter on all of its paths (one level of helper extraction).
+// SetForUpdatedView/SetForCreatedView call, or a call of a csvq helper that is
+// itself shown to mark what it receives (up to two levels of helper extraction).
 type txn4Mark struct {
-	in   *ssa.Call
-	info ssa.Value // the FileInfo argument at the call
+	in    *ssa.Call
+	info  ssa.Value // the FileInfo argument at the call (element or whole slice)
+	whole bool      // a helper that receives the whole []*FileInfo (and counts) and marks every element
 }
 
-// txn4HelperMarks: helper k marks its parameter #iInfo on every path from its
-// entry on which the parameters accepted by cntParam are positive.
-func txn4HelperMarks(p *core.Prog, k *ssa.Function, iInfo int, cntParam func(int) bool) bool {
-	if k == nil || k.Blocks == nil || iInfo >= len(k.Params) {
-		return false
-	}
-	pi := k.Params[iInfo]
-	var inner []ssa.Instruction
-	for _, m := range p.CallsNamed(k, txnUVSetUpd, txnUVSetCre) {
-		if mc, ok := m.(*ssa.Call); ok && len(mc.Call.Args) == 2 && txnValueIs(mc.Call.Args[1], pi) {
-			inner = append(inner, mc)
-		}
-	}
-	if len(inner) == 0 {
-		return false
-	}
-	isInner := func(in ssa.Instruction) bool {
-		for _, m := range inner {
-			if m == in {
-				return true
-			}
-		}
-		return false
-	}
-	cut := func(from, to *ssa.BasicBlock) bool {
-		cond, holds, ok := core.CondEdge(from, to)
-		if !ok {
-			return false
-		}
-		x, posi, ok := txnPositive(cond)
-		if !ok || posi == holds {
-			return false
-		}
-		for j, pj := range k.Params {
-			if cntParam(j) && txnValueIs(x, pj) {
-				return true
-			}
-		}
-		return false
-	}
-	return len(core.ExitsFromEntry(k, isInner, cut)) == 0
+// txn4Query: in function g, after instruction start (nil: from the entry), is
+// the FileInfo value info (single) / every element of the slice info (!single)
+// marked on all paths on which errV is nil and the own count cnt is positive?
+type txn4Query struct {
+	g        *ssa.Function
+	start    ssa.Instruction
+	info     ssa.Value
+	cnt      ssa.Value // nil: no count
+	cntSlice bool
+	errV     ssa.Value // nil: no error in scope
+	single   bool
+	depth    int
 }
 
-func txn4Site(c *Ctx, ord map[string]int, fn *ssa.Function, fc *ssa.Call, k *ssa.Function) {
+const txn4MaxDepth = 2
+
+func txn4Exits(q txn4Query, stop func(ssa.Instruction) bool, cut core.EdgeCut) []ssa.Instruction {
+	if q.start == nil {
+		return core.ExitsFromEntry(q.g, stop, cut)
+	}
+	return core.ExitsAfter(q.start, stop, cut)
+}
+
+// txn4Guaranteed returns "" when the marking is guaranteed, else what is wrong
+// and where.
+func txn4Guaranteed(c *Ctx, q txn4Query) (why string, pos string) {
 	p := c.P
-	key := txnOrd(ord, c.KeyAt(fn, "marking after "+p.FnRef(k)))
-	pos := c.Pos(fc)
-	res := k.Signature.Results()
-	infoV := txnExtract(fc, 0)
-	errV := txnExtract(fc, res.Len()-1)
-	var cntV ssa.Value
-	cntSlice := false
-	for i := 1; i < res.Len()-1; i++ {
-		t := res.At(i).Type()
-		if b, ok := t.Underlying().(*types.Basic); ok && b.Kind() == types.Int {
-			cntV = txnExtract(fc, i)
-		}
-		if s, ok := t.Underlying().(*types.Slice); ok {
-			if b, ok := s.Elem().Underlying().(*types.Basic); ok && b.Kind() == types.Int {
-				cntV = txnExtract(fc, i)
-				cntSlice = true
-			}
-		}
+	g := q.g
+	pos = c.FnPos(g)
+	if q.start != nil {
+		pos = c.Pos(q.start)
 	}
-	if infoV == nil {
-		c.Bad(key, pos, "the FileInfo result of the statement function is discarded: the change can never be marked as uncommitted")
-		return
-	}
-	single := txn4IsFileInfo(res.At(0).Type()) == 1
-	isErr := func(v ssa.Value) bool { return errV != nil && txnValueIs(v, errV) }
+	infoV, cntV := q.info, q.cnt
+	isErr := func(v ssa.Value) bool { return q.errV != nil && txnValueIs(v, q.errV) }
 	// isOwnCnt: v is the statement's own count belonging to FileInfo value info
 	isOwnCnt := func(v, info ssa.Value) bool {
 		if cntV == nil {
 			return false
 		}
-		if single {
-			return !cntSlice && txnValueIs(v, cntV)
+		if q.single {
+			return !q.cntSlice && txnValueIs(v, cntV)
 		}
 		ia, xa := txn4ElemOf(info, infoV), txn4ElemOf(v, cntV)
-		return cntSlice && ia != nil && xa != nil && xa.Index == ia.Index
+		return q.cntSlice && ia != nil && xa != nil && xa.Index == ia.Index
 	}
-	// marking calls fed by this call's FileInfo
+	// marking calls fed by the FileInfo
 	marksSet := p.CanReach([]string{txnUVSetUpd, txnUVSetCre}, txnBarrier)
 	var marks []txn4Mark
-	for _, m := range core.Calls(fn) {
+	helperWhy := ""
+	for _, m := range core.Calls(g) {
 		mc, ok := m.(*ssa.Call)
-		if !ok || mc == fc {
+		if !ok || ssa.Instruction(mc) == q.start {
 			continue
 		}
 		switch n := p.CalleeName(mc); {
 		case n == txnUVSetUpd || n == txnUVSetCre:
 			if len(mc.Call.Args) == 2 && core.DependsOn(mc.Call.Args[1], infoV) {
-				marks = append(marks, txn4Mark{mc, mc.Call.Args[1]})
+				marks = append(marks, txn4Mark{in: mc, info: mc.Call.Args[1]})
 			}
 		case p.CallIn(mc, marksSet):
 			h := core.StaticCallee(mc)
-			if h == nil || !txnIsSrc(p, h) {
+			if h == nil || !txnIsSrc(p, h) || h.Blocks == nil || q.depth >= txn4MaxDepth || len(h.Params) != len(mc.Call.Args) {
 				continue
 			}
-			for i, a := range mc.Call.Args {
-				if txn4IsFileInfo(a.Type()) != 1 || !core.DependsOn(a, infoV) {
-					continue
-				}
-				args := mc.Call.Args
-				info := a
-				if txn4HelperMarks(p, h, i, func(j int) bool { return j < len(args) && isOwnCnt(args[j], info) }) {
-					marks = append(marks, txn4Mark{mc, a})
+			args := mc.Call.Args
+			for i, a := range args {
+				switch {
+				case txn4IsFileInfo(a.Type()) == 1 && core.DependsOn(a, infoV):
+					// helper(info, …, cnt, …): marks its parameter when its count parameter is positive
+					sub := txn4Query{g: h, info: h.Params[i], single: true, depth: q.depth + 1}
+					for j := range args {
+						if isOwnCnt(args[j], a) {
+							sub.cnt = h.Params[j]
+						}
+					}
+					if w, at := txn4Guaranteed(c, sub); w == "" {
+						marks = append(marks, txn4Mark{in: mc, info: a})
+					} else {
+						helperWhy = fmt.Sprintf("; helper %s does not guarantee it (%s: %s)", p.FnRef(h), at, w)
+					}
+				case !q.single && txn4IsFileInfo(a.Type()) == 2 && txnValueIs(a, infoV):
+					// helper(infos, cnts, …): marks every element whose count is positive
+					sub := txn4Query{g: h, info: h.Params[i], single: false, depth: q.depth + 1}
+					for j := range args {
+						if cntV != nil && q.cntSlice && txnValueIs(args[j], cntV) {
+							sub.cnt = h.Params[j]
+							sub.cntSlice = true
+						}
+					}
+					if w, at := txn4Guaranteed(c, sub); w == "" {
+						marks = append(marks, txn4Mark{in: mc, info: a, whole: true})
+					} else {
+						helperWhy = fmt.Sprintf("; helper %s does not guarantee it (%s: %s)", p.FnRef(h), at, w)
+					}
 				}
 			}
 		}
 	}
 	if len(marks) == 0 {
-		c.Bad(key, pos, "no UncommittedViews.SetForUpdatedView/SetForCreatedView call (direct, or in a helper that marks its parameter on all paths) receives the FileInfo returned by this statement: COMMIT would not write the change and ROLLBACK would not report it")
-		return
-	}
-	isMark := func(in ssa.Instruction) bool {
-		for _, m := range marks {
-			if m.in == in {
-				return true
-			}
-		}
-		return false
+		return "no UncommittedViews.SetForUpdatedView/SetForCreatedView call (direct, or in a helper that is shown to mark what it receives) gets the FileInfo returned by this statement: COMMIT would not write the change and ROLLBACK would not report it" + helperWhy, pos
 	}
 	errCut := func(from, to *ssa.BasicBlock) bool { return txnNilEdge(from, to, isErr, false) } // edges on which err != nil
+	retErrIdx := core.ErrorResultIndex(g)
+	successRet := func(r *ssa.Return) bool { return retErrIdx < 0 || txnMayReturnNil(r, retErrIdx) }
 
-	if single {
+	if q.single {
+		isMark := func(in ssa.Instruction) bool {
+			for _, m := range marks {
+				if m.in == in {
+					return true
+				}
+			}
+			return false
+		}
 		cut := func(from, to *ssa.BasicBlock) bool {
 			if errCut(from, to) {
 				return true
@@ -1389,44 +1480,59 @@ func txn4Site(c *Ctx, ord map[string]int, fn *ssa.Function, fc *ssa.Call, k *ssa
 		}
 		for _, m := range marks {
 			if !txnValueIs(m.info, infoV) {
-				c.Bad(key, c.Pos(m.in), "the marked FileInfo is computed from, but is not, the FileInfo returned by the statement")
-				return
+				return "the marked FileInfo is computed from, but is not, the FileInfo returned by the statement", c.Pos(m.in)
 			}
 		}
-		if exits := core.ExitsAfter(fc, isMark, cut); len(exits) > 0 {
-			c.Bad(key, pos, fmt.Sprintf("with a nil error and a positive count the function can still reach the exit at %s without marking the FileInfo as uncommitted (the marking is skipped or depends on something else than `e == nil` / `0 < count`)", c.Pos(exits[0])))
-			return
+		for _, ex := range txn4Exits(q, isMark, cut) {
+			return fmt.Sprintf("with a nil error and a positive count the function can still reach the exit at %s without marking the FileInfo as uncommitted (the marking is skipped or depends on something else than `e == nil` / `0 < count`)", c.Pos(ex)), pos
 		}
-		c.Ok(key, pos, "on every path with a nil error (and a positive count) the returned FileInfo is marked before the function returns")
-		return
+		return "", pos
 	}
 
-	// slice results: for i, info := range infos { if 0 < cnts[i] { mark(info) } }
+	// slice results
+	// (a) a helper that takes the whole slice: reached on every path with a nil error
+	var whole []txn4Mark
+	for _, m := range marks {
+		if m.whole {
+			whole = append(whole, m)
+		}
+	}
+	if len(whole) > 0 {
+		isWhole := func(in ssa.Instruction) bool {
+			for _, m := range whole {
+				if m.in == in {
+					return true
+				}
+			}
+			return false
+		}
+		if exits := txn4Exits(q, isWhole, errCut); len(exits) > 0 {
+			return fmt.Sprintf("with a nil error the function can reach the exit at %s without calling the helper that marks the returned FileInfos", c.Pos(exits[0])), pos
+		}
+		return "", pos
+	}
+	// (b) for i, info := range infos { if 0 < cnts[i] { mark(info) } }
 	for _, m := range marks {
 		ia := txn4ElemOf(m.info, infoV)
 		if ia == nil {
-			c.Bad(key, c.Pos(m.in), "the marked FileInfo is not an element of the slice returned by the statement")
-			return
+			return "the marked FileInfo is not an element of the slice returned by the statement", c.Pos(m.in)
 		}
 		head := txn4LoopHead(ia.Index)
 		if head == nil {
-			c.Bad(key, c.Pos(m.in), "the marking is not inside a loop over the returned FileInfos: only some of the changed files are marked")
-			return
+			return "the marking is not inside a loop over the returned FileInfos: only some of the changed files are marked", c.Pos(m.in)
 		}
 		// A: the loop is reached whenever the error is nil
 		inHead := func(in ssa.Instruction) bool { return in.Block() == head }
-		if exits := core.ExitsAfter(fc, inHead, errCut); len(exits) > 0 {
-			c.Bad(key, pos, fmt.Sprintf("with a nil error the function can reach the exit at %s without entering the loop that marks the returned FileInfos", c.Pos(exits[0])))
-			return
+		if exits := txn4Exits(q, inHead, errCut); len(exits) > 0 {
+			return fmt.Sprintf("with a nil error the function can reach the exit at %s without entering the loop that marks the returned FileInfos", c.Pos(exits[0])), pos
 		}
 		// B: the loop visits every element: index starts at 0, steps by 1, runs to len
-		if why := txn4FullRange(head, ia.Index, infoV); why != "" {
-			c.Bad(key, c.Pos(m.in), "the marking loop does not visit every returned FileInfo: "+why)
-			return
+		if w := txn4FullRange(head, ia.Index, infoV); w != "" {
+			return "the marking loop does not visit every returned FileInfo: " + w, c.Pos(m.in)
 		}
 		// C: in each iteration the element with a positive count is marked
 		body := head.Succs[0]
-		minfo := m.info
+		minfo, min := m.info, m.in
 		cut := func(from, to *ssa.BasicBlock) bool {
 			cond, holds, ok := core.CondEdge(from, to)
 			if !ok {
@@ -1437,7 +1543,7 @@ func txn4Site(c *Ctx, ord map[string]int, fn *ssa.Function, fc *ssa.Call, k *ssa
 		}
 		escaped := ""
 		core.WalkPruned(body, 0, func(in ssa.Instruction) bool {
-			if escaped != "" || in == m.in {
+			if escaped != "" || in == min {
 				return false
 			}
 			if in.Block() == head {
@@ -1445,7 +1551,7 @@ func txn4Site(c *Ctx, ord map[string]int, fn *ssa.Function, fc *ssa.Call, k *ssa
 				return false
 			}
 			if r, ok := in.(*ssa.Return); ok {
-				if txnMayReturnNil(r, core.ErrorResultIndex(fn)) {
+				if successRet(r) {
 					escaped = "the return at " + c.Pos(in)
 				}
 				return false
@@ -1453,11 +1559,44 @@ func txn4Site(c *Ctx, ord map[string]int, fn *ssa.Function, fc *ssa.Call, k *ssa
 			return true
 		}, cut)
 		if escaped != "" {
-			c.Bad(key, c.Pos(m.in), "inside the loop an element whose count is positive can reach "+escaped+" without being marked (the marking depends on something else than `0 < counts[i]` of the same index)")
-			return
+			return "inside the loop an element whose count is positive can reach " + escaped + " without being marked (the marking depends on something else than `0 < counts[i]` of the same index)", c.Pos(m.in)
 		}
 	}
-	c.Ok(key, pos, "with a nil error the loop over all returned FileInfos is reached and marks each element whose own count is positive")
+	return "", pos
+}
+
+func txn4Site(c *Ctx, ord map[string]int, fn *ssa.Function, fc *ssa.Call, k *ssa.Function) {
+	p := c.P
+	key := txnOrd(ord, c.KeyAt(fn, "marking after "+p.FnRef(k)))
+	pos := c.Pos(fc)
+	res := k.Signature.Results()
+	q := txn4Query{g: fn, start: fc, info: txnExtract(fc, 0), errV: txnExtract(fc, res.Len()-1)}
+	for i := 1; i < res.Len()-1; i++ {
+		t := res.At(i).Type()
+		if b, ok := t.Underlying().(*types.Basic); ok && b.Kind() == types.Int {
+			q.cnt = txnExtract(fc, i)
+		}
+		if s, ok := t.Underlying().(*types.Slice); ok {
+			if b, ok := s.Elem().Underlying().(*types.Basic); ok && b.Kind() == types.Int {
+				q.cnt = txnExtract(fc, i)
+				q.cntSlice = true
+			}
+		}
+	}
+	if q.info == nil {
+		c.Bad(key, pos, "the FileInfo result of the statement function is discarded: the change can never be marked as uncommitted")
+		return
+	}
+	q.single = txn4IsFileInfo(res.At(0).Type()) == 1
+	if why, at := txn4Guaranteed(c, q); why != "" {
+		c.Bad(key, at, why)
+		return
+	}
+	if q.single {
+		c.Ok(key, pos, "on every path with a nil error (and a positive count) the returned FileInfo is marked before the function returns")
+	} else {
+		c.Ok(key, pos, "with a nil error every returned FileInfo whose own count is positive is marked (loop over the whole slice, or a helper shown to do so)")
+	}
 }
 
 // txn4ElemOf: v is `*(&S[i])` / S[i] with S == slice (or a cell holding it).
@@ -2043,26 +2182,133 @@ func txn8SwapHelper(c *Ctx, h *ssa.Function, i int) string {
 	return ""
 }
 
-// txn8EncodePhase examines the direct EncodeView calls of g: each writes through
-// FileForUpdate() of the handler of the view it encodes, and after its success
-// every path appends <view>.FileInfo to a []*FileInfo before it reaches another
-// encode, a stop instruction (swap) or a return that can report success.
-// Returns the appends found and, per encode, "" or what is wrong.
-func txn8EncodePhase(c *Ctx, g *ssa.Function, encodes []*ssa.Call, isStop func(ssa.Instruction) bool) (fills []*ssa.Call, bad []string) {
-	p := c.P
-	errIdx := core.ErrorResultIndex(g)
-	isEncode := func(in ssa.Instruction) bool {
-		for _, e := range encodes {
-			if e == in {
-				return true
-			}
+// txn8Enc is one place in a function where a view gets encoded into its table
+// file: a direct EncodeView call, or a call of a per-view encode helper (a csvq
+// function shown to encode one view through its own handler and to return that
+// view's FileInfo).
+type txn8Enc struct {
+	call   *ssa.Call
+	errV   ssa.Value
+	direct bool
+	view   ssa.Value               // direct: the encoded view
+	result ssa.Value               // helper: the returned *FileInfo
+	from   []ssa.Value             // values the encoded view is derived from (for "both maps are encoded")
+	helper *ssa.Function           // helper only
+	isFI   func(el ssa.Value) bool // el is the FileInfo of the view encoded here
+}
+
+func txn8DirectEnc(e *ssa.Call) txn8Enc {
+	enc := txn8Enc{call: e, direct: true, errV: txnExtract(e, 1)}
+	if len(e.Call.Args) >= 3 {
+		view := e.Call.Args[2]
+		enc.view = view
+		enc.from = []ssa.Value{view}
+		enc.isFI = func(el ssa.Value) bool {
+			r, path, pk := core.AccessPath(el)
+			return pk && r == view && path == ".FileInfo"
 		}
+	} else {
+		enc.isFI = func(ssa.Value) bool { return false }
+	}
+	return enc
+}
+
+// txn8Collect classifies the calls of g that can encode or swap. Encodes are
+// direct EncodeView calls and calls of verified per-view helpers; list helpers
+// (encode the views of a map, return the list) and swaps are reported through
+// the callbacks. why != "" when a call cannot be classified.
+type txn8ListHelper struct {
+	in        *ssa.Call
+	list      ssa.Value
+	h         *ssa.Function
+	mapParams map[int]bool
+}
+
+func txn8CollectEncs(c *Ctx, g *ssa.Function, depth int, onSwap func(call ssa.CallInstruction) string) (encs []txn8Enc, lists []txn8ListHelper, why string, at ssa.Instruction) {
+	p := c.P
+	encSet, swapSet := txnSet(p, txnEncodeView), txnSet(p, txnContCommit)
+	for _, call := range core.Calls(g) {
+		isEnc, isSw := p.CallIn(call, encSet), p.CallIn(call, swapSet)
+		if !isEnc && !isSw {
+			continue
+		}
+		in := call.(ssa.Instruction)
+		cc, ok := call.(*ssa.Call)
+		name := p.CalleeName(call)
+		switch {
+		case ok && name == txnEncodeView:
+			encs = append(encs, txn8DirectEnc(cc))
+		case isSw && !isEnc:
+			if w := onSwap(call); w != "" {
+				return nil, nil, w, in
+			}
+		case ok && isEnc && !isSw:
+			h := core.StaticCallee(cc)
+			if h == nil || !txnIsSrc(p, h) || depth >= 2 {
+				return nil, nil, "views are encoded inside " + txnCallLabel(p, call) + ", which is not a statically known csvq function the rule can follow", in
+			}
+			res := h.Signature.Results()
+			kind := 0
+			if res.Len() >= 1 {
+				kind = txn4IsFileInfo(res.At(0).Type())
+			}
+			switch kind {
+			case 1: // per-view helper: fi, err := h(…)
+				w := txn8ViewHelper(c, h, depth+1)
+				if w != "" {
+					return nil, nil, "views are encoded inside " + txnCallLabel(p, call) + " and the rule cannot relate them to the swapped files (" + w + ")", in
+				}
+				c.Touch(h)
+				enc := txn8Enc{call: cc, helper: h}
+				enc.errV, _ = txnErrOf(cc)
+				var result ssa.Value = cc
+				if res.Len() > 1 {
+					result = txnExtract(cc, 0)
+				}
+				enc.result = result
+				enc.from = append(enc.from, cc.Call.Args...)
+				enc.isFI = func(el ssa.Value) bool { return result != nil && txnValueIs(el, result) }
+				encs = append(encs, enc)
+			case 2: // list helper: list, err := h(files)
+				mp, w := txn8EncodeHelper(c, h, depth+1)
+				if w != "" {
+					return nil, nil, "views are encoded inside " + txnCallLabel(p, call) + " and the rule cannot relate them to the swapped files (" + w + ")", in
+				}
+				c.Touch(h)
+				var list ssa.Value = cc
+				if res.Len() > 1 {
+					list = txnExtract(cc, 0)
+				}
+				lists = append(lists, txn8ListHelper{cc, list, h, mp})
+			default:
+				return nil, nil, "views are encoded inside " + txnCallLabel(p, call) + ", which returns neither the FileInfo nor the list of FileInfos of what it encoded", in
+			}
+		default:
+			return nil, nil, "EncodeView / Container.Commit is reached through " + txnCallLabel(p, call) + "; the correspondence between encoded and swapped files is not visible in this function", in
+		}
+	}
+	return encs, lists, "", nil
+}
+
+// txn8WriterOK: a direct EncodeView writes through FileForUpdate() of the
+// handler of the view it encodes.
+func txn8WriterOK(p *core.Prog, e *ssa.Call) bool {
+	if len(e.Call.Args) < 3 {
 		return false
 	}
-	bad = make([]string, len(encodes))
-	// side condition of the access-path comparison below: the fields on the
-	// paths (<view>.FileInfo, <fileinfo>.Handler) are not reassigned in g
-	reassigned := ""
+	view := e.Call.Args[2]
+	w := core.Strip(e.Call.Args[1])
+	fu, idx, ok := core.ExtractOf(w)
+	if ok && idx == 0 && p.CalleeName(fu) == txnFileForUpd && len(fu.Call.Args) == 1 {
+		r, path, pk := core.AccessPath(fu.Call.Args[0])
+		return pk && r == view && path == ".FileInfo.Handler"
+	}
+	return false
+}
+
+// txn8Reassigned: g reassigns View.FileInfo / FileInfo.Handler of an existing
+// object (side condition of the access-path comparisons); "" or the position.
+func txn8Reassigned(c *Ctx, g *ssa.Function) string {
 	for _, b := range g.Blocks {
 		for _, in := range b.Instrs {
 			if st, ok := in.(*ssa.Store); ok {
@@ -2073,49 +2319,62 @@ func txn8EncodePhase(c *Ctx, g *ssa.Function, encodes []*ssa.Call, isStop func(s
 							continue // initialising a struct allocated here
 						}
 					}
-					reassigned = c.Pos(in)
+					return c.Pos(in)
 				}
 			}
 		}
 	}
-	for i, e := range encodes {
-		if reassigned != "" {
-			bad[i] = "the function reassigns View.FileInfo / FileInfo.Handler at " + reassigned + ": the rule cannot tell that the handler written to is the handler that is swapped"
+	return ""
+}
+
+// txn8EncodePhase examines the encodes of g: a direct EncodeView writes through
+// FileForUpdate() of the handler of the view it encodes, and after the success
+// of an encode every path appends the FileInfo of the encoded view to a
+// []*FileInfo before it reaches another encode, a stop instruction (swap) or a
+// return that can report success. Returns the appends found and, per encode,
+// "" or what is wrong.
+func txn8EncodePhase(c *Ctx, g *ssa.Function, encs []txn8Enc, isStop func(ssa.Instruction) bool) (fills []*ssa.Call, bad []string) {
+	p := c.P
+	errIdx := core.ErrorResultIndex(g)
+	isEncode := func(in ssa.Instruction) bool {
+		for _, e := range encs {
+			if e.call == in {
+				return true
+			}
+		}
+		return false
+	}
+	bad = make([]string, len(encs))
+	reassigned := txn8Reassigned(c, g)
+	for i, e := range encs {
+		if e.direct {
+			if reassigned != "" {
+				bad[i] = "the function reassigns View.FileInfo / FileInfo.Handler at " + reassigned + ": the rule cannot tell that the handler written to is the handler that is swapped"
+				continue
+			}
+			if !txn8WriterOK(p, e.call) {
+				bad[i] = "the writer given to EncodeView is not FileForUpdate() of the handler of the encoded view itself: a view could be written into another table's file"
+				continue
+			}
+		} else if e.result == nil {
+			bad[i] = "the FileInfo returned by the encode helper is discarded: the file can never be put on the swap list"
 			continue
 		}
-		if len(e.Call.Args) < 3 {
-			bad[i] = "unexpected signature of EncodeView"
-			continue
-		}
-		view := e.Call.Args[2]
-		// writer = FileForUpdate() of view.FileInfo.Handler
-		w := core.Strip(e.Call.Args[1])
-		fu, idx, ok := core.ExtractOf(w)
-		okW := false
-		if ok && idx == 0 && p.CalleeName(fu) == txnFileForUpd && len(fu.Call.Args) == 1 {
-			r, path, pk := core.AccessPath(fu.Call.Args[0])
-			okW = pk && r == view && path == ".FileInfo.Handler"
-		}
-		if !okW {
-			bad[i] = "the writer given to EncodeView is not FileForUpdate() of the handler of the encoded view itself: a view could be written into another table's file"
-			continue
-		}
-		errV := txnExtract(e, 1)
+		errV := e.errV
 		cut := func(from, to *ssa.BasicBlock) bool {
-			return txnNilEdge(from, to, func(v ssa.Value) bool { return errV != nil && v == errV }, false)
+			return txnNilEdge(from, to, func(v ssa.Value) bool { return errV != nil && txnValueIs(v, errV) }, false)
 		}
+		isFI := e.isFI
 		off := ""
-		core.WalkPruned(e.Block(), core.InstrIndex(e)+1, func(in ssa.Instruction) bool {
+		core.WalkPruned(e.call.Block(), core.InstrIndex(e.call)+1, func(in ssa.Instruction) bool {
 			if off != "" {
 				return false
 			}
 			if ap, isCall := in.(*ssa.Call); isCall {
 				if bi, isB := ap.Call.Value.(*ssa.Builtin); isB && bi.Name() == "append" && txn4IsFileInfo(ap.Type()) == 2 {
-					if el := txn8Appended(ap); el != nil {
-						if r, path, pk := core.AccessPath(el); pk && r == view && path == ".FileInfo" {
-							fills = append(fills, ap)
-							return false
-						}
+					if el := txn8Appended(ap); el != nil && isFI(el) {
+						fills = append(fills, ap)
+						return false
 					}
 				}
 			}
@@ -2139,17 +2398,13 @@ func txn8EncodePhase(c *Ctx, g *ssa.Function, encodes []*ssa.Call, isStop func(s
 }
 
 // txn8AppendsOK: every append feeding a swapped list puts the FileInfo of a view
-// whose EncodeView call dominates it; returns the position of a bad append or "".
-func txn8AppendsOK(c *Ctx, apps []*ssa.Call, encodes []*ssa.Call) string {
+// whose encode dominates it; returns the position of a bad append or "".
+func txn8AppendsOK(c *Ctx, apps []*ssa.Call, encs []txn8Enc) string {
 	for _, ap := range apps {
 		el := txn8Appended(ap)
 		okAp := false
-		for _, e := range encodes {
-			if !core.Dominates(e, ap) || el == nil || len(e.Call.Args) < 3 {
-				continue
-			}
-			r, path, pk := core.AccessPath(el)
-			if pk && r == e.Call.Args[2] && path == ".FileInfo" {
+		for _, e := range encs {
+			if el != nil && core.Dominates(e.call, ap) && e.isFI(el) {
 				okAp = true
 			}
 		}
@@ -2160,11 +2415,67 @@ func txn8AppendsOK(c *Ctx, apps []*ssa.Call, encodes []*ssa.Call) string {
 	return ""
 }
 
+// txn8ViewHelper: h encodes one view — directly, through FileForUpdate() of
+// that view's own handler, or through a further per-view helper — and every
+// return that can report success yields the FileInfo of a view whose encode
+// dominates the return and cannot have failed on the way to it.
+func txn8ViewHelper(c *Ctx, h *ssa.Function, depth int) string {
+	p := c.P
+	if h == nil || h.Blocks == nil {
+		return "no body"
+	}
+	encs, lists, why, _ := txn8CollectEncs(c, h, depth, func(call ssa.CallInstruction) string { return "it also swaps files" })
+	if why != "" {
+		return why
+	}
+	if len(lists) > 0 || len(encs) == 0 {
+		return "it does not encode exactly the view it is called for"
+	}
+	if pos := txn8Reassigned(c, h); pos != "" {
+		return "it reassigns View.FileInfo / FileInfo.Handler at " + pos
+	}
+	for _, e := range encs {
+		if e.direct && !txn8WriterOK(p, e.call) {
+			return "the writer given to EncodeView at " + c.Pos(e.call) + " is not FileForUpdate() of the handler of the encoded view itself"
+		}
+	}
+	errIdx := core.ErrorResultIndex(h)
+	n := 0
+	for _, r := range core.Returns(h) {
+		if errIdx >= 0 && !txnMayReturnNil(r, errIdx) {
+			continue
+		}
+		n++
+		for _, v := range core.ReturnOperand(r, 0) {
+			ok := false
+			for _, e := range encs {
+				if v == nil || !core.Dominates(e.call, r) || !e.isFI(v) {
+					continue
+				}
+				// not reachable from the failure edge of the encode
+				errV := e.errV
+				cut := func(from, to *ssa.BasicBlock) bool {
+					return txnNilEdge(from, to, func(x ssa.Value) bool { return errV != nil && txnValueIs(x, errV) }, true)
+				}
+				if errV != nil && !core.ReachesAfter(e.call, r, nil, cut) {
+					ok = true
+				}
+			}
+			if !ok {
+				return "the return at " + c.Pos(r) + " can report success with something else than the FileInfo of a view that was successfully encoded before it"
+			}
+		}
+	}
+	if n == 0 {
+		return "it has no return that can report success"
+	}
+	return ""
+}
+
 // txn8EncodeHelper: h encodes views derived from its map parameter(s) and
 // returns, on every return that can report success, exactly the list of the
-// FileInfos of the views it encoded (one level of helper extraction).
-func txn8EncodeHelper(c *Ctx, h *ssa.Function) (mapParams map[int]bool, why string) {
-	p := c.P
+// FileInfos of the views it encoded.
+func txn8EncodeHelper(c *Ctx, h *ssa.Function, depth int) (mapParams map[int]bool, why string) {
 	if h == nil || h.Blocks == nil {
 		return nil, "no body"
 	}
@@ -2172,34 +2483,24 @@ func txn8EncodeHelper(c *Ctx, h *ssa.Function) (mapParams map[int]bool, why stri
 	if res.Len() < 1 || txn4IsFileInfo(res.At(0).Type()) != 2 {
 		return nil, "it does not return the []*FileInfo list of what it encoded"
 	}
-	encSet, swapSet := txnSet(p, txnEncodeView), txnSet(p, txnContCommit)
-	var encodes []*ssa.Call
-	for _, call := range core.Calls(h) {
-		if p.CallIn(call, swapSet) {
-			return nil, "it also swaps files"
-		}
-		if !p.CallIn(call, encSet) {
-			continue
-		}
-		cc, ok := call.(*ssa.Call)
-		if !ok || p.CalleeName(cc) != txnEncodeView {
-			return nil, "it encodes through a further call (" + txnCallLabel(p, call) + ")"
-		}
-		encodes = append(encodes, cc)
+	encs, lists, w, _ := txn8CollectEncs(c, h, depth, func(call ssa.CallInstruction) string { return "it also swaps files" })
+	if w != "" {
+		return nil, w
 	}
-	if len(encodes) == 0 {
-		return nil, "no direct EncodeView call"
+	if len(lists) > 0 {
+		return nil, "it encodes through a further list helper"
 	}
-	fills, bad := txn8EncodePhase(c, h, encodes, func(ssa.Instruction) bool { return false })
+	if len(encs) == 0 {
+		return nil, "no encode"
+	}
+	fills, bad := txn8EncodePhase(c, h, encs, func(ssa.Instruction) bool { return false })
 	for i, b := range bad {
 		if b != "" {
-			return nil, fmt.Sprintf("encode at %s: %s", c.Pos(encodes[i]), b)
+			return nil, fmt.Sprintf("encode at %s: %s", c.Pos(encs[i].call), b)
 		}
 	}
-	isFill := map[*ssa.Call]bool{}
 	fillRoots := map[ssa.Value]bool{}
 	for _, ap := range fills {
-		isFill[ap] = true
 		roots, _, ok := txn8SliceRoots(ap, nil)
 		if !ok || len(roots) != 1 {
 			return nil, "the list it fills is not built only by one make() and appends"
@@ -2226,7 +2527,7 @@ func txn8EncodeHelper(c *Ctx, h *ssa.Function) (mapParams map[int]bool, why stri
 					return nil, "the returned list is not the list filled after the encodes"
 				}
 			}
-			if bp := txn8AppendsOK(c, apps, encodes); bp != "" {
+			if bp := txn8AppendsOK(c, apps, encs); bp != "" {
 				return nil, "the append at " + bp + " puts something else than the FileInfo of an encoded view into the returned list"
 			}
 		}
@@ -2240,8 +2541,14 @@ func txn8EncodeHelper(c *Ctx, h *ssa.Function) (mapParams map[int]bool, why stri
 			continue
 		}
 		all := true
-		for _, e := range encodes {
-			if !core.DependsOn(e.Call.Args[2], pj) {
+		for _, e := range encs {
+			dep := false
+			for _, f := range e.from {
+				if core.DependsOn(f, pj) {
+					dep = true
+				}
+			}
+			if !dep {
 				all = false
 			}
 		}
@@ -2256,7 +2563,6 @@ func txn8Func(c *Ctx, fn *ssa.Function, full bool) {
 	p := c.P
 	c.Touch(fn)
 	errIdx := core.ErrorResultIndex(fn)
-	encSet, swapSet := txnSet(p, txnEncodeView), txnSet(p, txnContCommit)
 	type swapT struct {
 		in     *ssa.Call // direct Container.Commit call, or call of a swap helper
 		list   ssa.Value // the slice whose elements are swapped
@@ -2264,78 +2570,54 @@ func txn8Func(c *Ctx, fn *ssa.Function, full bool) {
 		owner  ssa.Value // direct only
 		helper *ssa.Function
 	}
-	type encHelperT struct {
-		in        *ssa.Call
-		list      ssa.Value
-		h         *ssa.Function
-		mapParams map[int]bool
-	}
-	var encodes []*ssa.Call
-	var encHelpers []encHelperT
 	var swaps []swapT
-	for _, call := range core.Calls(fn) {
-		isEnc, isSw := p.CallIn(call, encSet), p.CallIn(call, swapSet)
-		if !isEnc && !isSw {
-			continue
-		}
+	badSwap := false
+	onSwap := func(call ssa.CallInstruction) string {
 		cc, ok := call.(*ssa.Call)
-		name := p.CalleeName(call)
-		switch {
-		case ok && name == txnEncodeView:
-			encodes = append(encodes, cc)
-		case ok && name == txnContCommit:
+		if !ok {
+			return "files are swapped by a go/defer statement"
+		}
+		if p.CalleeName(cc) == txnContCommit {
 			list, idx, owner, okS := txn8SwapSite(cc)
 			if !okS {
 				c.Bad(c.KeyAt(fn, "swap handler"), c.Pos(cc), "the swapped handler is not `<slice>[i].Handler` of a slice built by the encode phase: files could be swapped that were not (completely) encoded")
-				return
+				badSwap = true
+				return "swap"
 			}
 			swaps = append(swaps, swapT{in: cc, list: list, idx: idx, owner: owner})
-		case ok && isSw && !isEnc:
-			// one level of helper extraction: h(list) swaps all elements of its parameter
-			h := core.StaticCallee(cc)
-			why := "it is not a statically known csvq function"
-			if h != nil && txnIsSrc(p, h) {
-				why = "it takes no []*FileInfo argument"
-				for i, a := range cc.Call.Args {
-					if txn4IsFileInfo(a.Type()) != 2 {
-						continue
-					}
-					if why = txn8SwapHelper(c, h, i); why == "" {
-						c.Touch(h)
-						swaps = append(swaps, swapT{in: cc, list: a, helper: h})
-						break
-					}
+			return ""
+		}
+		// one level of helper extraction: h(list) swaps all elements of its parameter
+		h := core.StaticCallee(cc)
+		why := "it is not a statically known csvq function"
+		if h != nil && txnIsSrc(p, h) {
+			why = "it takes no []*FileInfo argument"
+			for i, a := range cc.Call.Args {
+				if txn4IsFileInfo(a.Type()) != 2 {
+					continue
+				}
+				if why = txn8SwapHelper(c, h, i); why == "" {
+					c.Touch(h)
+					swaps = append(swaps, swapT{in: cc, list: a, helper: h})
+					break
 				}
 			}
-			if why != "" {
-				c.Unknown(c.KeyAt(fn, "swap through "+txnCallLabel(p, call)), c.Pos(cc), "cannot-analyse: files are swapped inside "+txnCallLabel(p, call)+" and the rule cannot relate them to the encoded files ("+why+")")
-				return
-			}
-		case ok && isEnc && !isSw:
-			// one level of helper extraction: list, err := h(files) encodes and returns what it encoded
-			h := core.StaticCallee(cc)
-			why := "it is not a statically known csvq function"
-			var mp map[int]bool
-			if h != nil && txnIsSrc(p, h) {
-				mp, why = txn8EncodeHelper(c, h)
-			}
-			if why != "" {
-				c.Unknown(c.KeyAt(fn, "encode through "+txnCallLabel(p, call)), c.Pos(cc), "cannot-analyse: views are encoded inside "+txnCallLabel(p, call)+" and the rule cannot relate them to the swapped files ("+why+")")
-				return
-			}
-			c.Touch(h)
-			var list ssa.Value = cc
-			if cc.Call.Signature().Results().Len() > 1 {
-				list = txnExtract(cc, 0)
-			}
-			encHelpers = append(encHelpers, encHelperT{cc, list, h, mp})
-		default:
-			c.Unknown(c.KeyAt(fn, "encode/swap through "+txnCallLabel(p, call)), c.Pos(call.(ssa.Instruction)), "cannot-analyse: EncodeView / Container.Commit is reached through "+txnCallLabel(p, call)+"; the correspondence between encoded and swapped files is not visible in this function")
-			return
 		}
+		if why != "" {
+			return "files are swapped inside " + txnCallLabel(p, call) + " and the rule cannot relate them to the encoded files (" + why + ")"
+		}
+		return ""
 	}
-	if len(encodes)+len(encHelpers) == 0 || len(swaps) == 0 {
-		c.Unknown(c.KeyAt(fn, "encode and swap calls"), c.FnPos(fn), fmt.Sprintf("cannot-analyse: %d encode(s) and %d swap(s) in this function; the correspondence between encoded and swapped files is no longer visible here", len(encodes)+len(encHelpers), len(swaps)))
+	encs, encHelpers, why, at := txn8CollectEncs(c, fn, 0, onSwap)
+	if badSwap {
+		return
+	}
+	if why != "" {
+		c.Unknown(c.KeyAt(fn, "encode/swap through "+txnCallLabel(p, at.(ssa.CallInstruction))), c.Pos(at), "cannot-analyse: "+why)
+		return
+	}
+	if len(encs)+len(encHelpers) == 0 || len(swaps) == 0 {
+		c.Unknown(c.KeyAt(fn, "encode and swap calls"), c.FnPos(fn), fmt.Sprintf("cannot-analyse: %d encode(s) and %d swap(s) in this function; the correspondence between encoded and swapped files is no longer visible here", len(encs)+len(encHelpers), len(swaps)))
 		return
 	}
 	isSwap := func(in ssa.Instruction) bool {
@@ -2371,8 +2653,8 @@ func txn8Func(c *Ctx, fn *ssa.Function, full bool) {
 			swapRoots[r] = true
 		}
 		// every append into it follows a successful encode of the same view
-		if bad := txn8AppendsOK(c, apps, encodes); bad != "" {
-			c.Bad(key, c.Pos(s.in), "the append at "+bad+" puts something else than the FileInfo of a view whose EncodeView call dominates it into the swap list")
+		if bad := txn8AppendsOK(c, apps, encs); bad != "" {
+			c.Bad(key, c.Pos(s.in), "the append at "+bad+" puts something else than the FileInfo of a view whose encode dominates it into the swap list")
 			continue
 		}
 		if s.helper != nil {
@@ -2398,14 +2680,17 @@ func txn8Func(c *Ctx, fn *ssa.Function, full bool) {
 	}
 
 	// every encode writes to its own view's handler and is followed by an append into a list
-	fills, bad := txn8EncodePhase(c, fn, encodes, isSwap)
-	for i, e := range encodes {
+	fills, bad := txn8EncodePhase(c, fn, encs, isSwap)
+	for i, e := range encs {
 		c.Sites++
 		key := c.KeyAt(fn, fmt.Sprintf("encode #%d is swapped", i+1))
-		if bad[i] != "" {
-			c.Bad(key, c.Pos(e), bad[i])
-		} else {
-			c.Ok(key, c.Pos(e), "written through FileForUpdate of its own handler; its FileInfo is appended to a list on every continuing path")
+		switch {
+		case bad[i] != "":
+			c.Bad(key, c.Pos(e.call), bad[i])
+		case e.direct:
+			c.Ok(key, c.Pos(e.call), "written through FileForUpdate of its own handler; its FileInfo is appended to a list on every continuing path")
+		default:
+			c.Ok(key, c.Pos(e.call), "helper "+p.FnRef(e.helper)+" writes the view through FileForUpdate of its own handler and returns its FileInfo, which is appended to a list on every continuing path")
 		}
 	}
 	for i, eh := range encHelpers {
@@ -2467,9 +2752,11 @@ func txn8Func(c *Ctx, fn *ssa.Function, full bool) {
 		ex := txnExtract(uf, i)
 		ok := false
 		if ex != nil {
-			for _, e := range encodes {
-				if len(e.Call.Args) >= 3 && core.DependsOn(e.Call.Args[2], ex) {
-					ok = true
+			for _, e := range encs {
+				for _, f := range e.from {
+					if core.DependsOn(f, ex) {
+						ok = true
+					}
 				}
 			}
 			for _, eh := range encHelpers {
@@ -2480,7 +2767,7 @@ func txn8Func(c *Ctx, fn *ssa.Function, full bool) {
 				}
 			}
 		}
-		c.Check(ok, key, c.Pos(uf), "an EncodeView call encodes views derived from this map",
+		c.Check(ok, key, c.Pos(uf), "an encode handles views derived from this map",
 			"no EncodeView call encodes views derived from result #"+fmt.Sprint(i)+" of UncommittedFiles: the "+what+" files would never be written")
 	}
 }
